@@ -127,6 +127,12 @@ class NetRun:
         self.stopped = False
         self.trace = []  # compact per-op trace for samples
         self.poisoned = set()  # nodes whose desired state holds a value the wire cannot carry
+        self.last_change_t = -1.0
+        self.last_change_kind = None
+        self.last_save_t = -2.0
+        self.last_kinds = set()
+        self.prev_state_hash = None
+        self.cur_kind = None
         gw_kwargs = {"protocol_version": self.version}
         self.fs = simfs.SimFS(bufsize=cfg.get("bufsize", 8192))
         if self.persist:
@@ -148,8 +154,14 @@ class NetRun:
         self.model = GatewayModel(self.version, kind)
         self.cb_raise = set(cfg.get("cb_raise", ()))
         self.world.event_hook = self._event_hook
+        self.fs.trace = self._fs_trace
 
     # ------------------------------------------------------------------ plumbing
+    def _fs_trace(self, opname, path):
+        if opname == "rename" and ".tmp." in path:
+            self.last_save_t = self.world.sim.now
+            self.probe("saves_completed")
+
     def probe(self, name, n=1):
         self.probes[name] = self.probes.get(name, 0) + n
 
@@ -305,6 +317,7 @@ class NetRun:
         off = self.cfg.get("utc_offset", 0)
         exp = self.model.on_line(fields, (int(t_before + off), int(t_after + off)))
         self.kinds.add(exp.kind)
+        self.cur_kind = exp.kind
         self._check_expect(exp, fields, out, cbs, (int(t_before + off), int(t_after + off)), text)
         self._check_state(text)
         self.trace.append(("ok", text[:60], [o[0][:40] for o in out][:4]))
@@ -444,7 +457,12 @@ class NetRun:
     def _check_state(self, text):
         real = W.projection(self.world.gateway.sensors)
         want = self.model.projection()
-        self.states.add(hashlib.sha256(repr(sorted(want.items())).encode()).hexdigest()[:12])
+        shash = hashlib.sha256(repr(sorted(want.items())).encode()).hexdigest()[:12]
+        self.states.add(shash)
+        if shash != self.prev_state_hash:
+            self.prev_state_hash = shash
+            self.last_change_t = self.world.sim.now
+            self.last_change_kind = self.cur_kind
         if real != want:
             self.add(vio("state-mismatch", {"after": text, "diff": _diff(real, want)}))
             # resynchronise is not possible; stop comparing to avoid cascades
@@ -696,6 +714,17 @@ class NetRun:
         """Clean stop, then a fresh gateway object on the same disk."""
         world = self.world
         before = W.projection(world.gateway.sensors)
+        trans_before = W.transient(world.gateway.sensors)
+        if any(tr["queue"] or tr["reboot"] or any(any(x is not None for x in v.values()) for v in tr["desired"].values())
+               for tr in trans_before.values()):
+            self.probe("transient_nonempty_at_stop")
+        if self.persist and self.cfg.get("force_dirty"):
+            # C11 isolates serialisation from dirty-flag tracking (that is C14's business)
+            world.gateway.tasks.persistence.need_save = True
+        if self.persist:
+            self.probe("stop_after_unsaved_change" if self.last_change_t > self.last_save_t else "stop_with_nothing_unsaved")
+            if self.last_change_t > self.last_save_t and self.last_change_kind:
+                self.last_kinds.add(self.last_change_kind)
         try:
             world.stop()
         except kernel.SimAbort:
@@ -729,7 +758,9 @@ class NetRun:
         if self.persist:
             self.probe("restarts_with_persistence")
             if after != before:
-                self.add(vio("restart-lost-state", {"diff": _diff(after, before), "format": self.persist}, format=self.persist))
+                cls = "roundtrip-mismatch" if self.cfg.get("force_dirty") else "restart-lost-state"
+                self.add(vio(cls, {"diff": _diff(after, before), "format": self.persist, "last_change": self.last_change_kind},
+                             format=self.persist, last_change=None if self.cfg.get("force_dirty") else self.last_change_kind))
             # continue from what was really loaded so later ops stay meaningful
             for nid, rec in after.items():
                 self.model.nodes[nid] = _model_node_from_projection(nid, rec)
@@ -820,6 +851,7 @@ class NetRun:
         res["incomplete"] = incomplete
         res["states"] = sorted(self.states)
         res["kinds"] = sorted(k for k in self.kinds if k)
+        res["last_kinds"] = sorted(k for k in self.last_kinds if k)
         return res
 
 
